@@ -205,6 +205,10 @@ def run(F, R):
                 vt_ = k_["bv"].trace_op(k_["t"]["args"][2]) if len(k_["t"].get("args", [])) > 2 else None
                 d_ = optnorm.option_desc(W, k_["bv"], vt_) if vt_ is not None else k_["value"]
                 # a lossless widening written `x as i64` or `i64::from(x)` is the same value
+                if key == "consecutive_failed_update_checks":
+                    # `Some(counter).filter(|c| c != 0)`: the predicate is judged by zero-is-absent below
+                    import re as _re
+                    d_ = _re.sub(r"\?\[Ne\(\*?(?:\$1|param2), 0\)\]", "", d_)
                 for sp_ in ("cast<IntToInt>(%s)", "from(%s)", "into(%s)"):
                     d_ = d_.replace(sp_ % "param1.0.state.consecutive_failed_update_checks", "param1.0.state.consecutive_failed_update_checks")
                 wvals.append(d_)
